@@ -137,4 +137,76 @@ CONTRACTS = [
             "partial-sum": "ssum(idx, 0, r) == ascents(dna_sequence, p)",
         }, variant="pairs - p")},
     ),
+] + []
+
+# ====================================================================================================== encode / decode (C01, C04, C05, C06)
+N = "ipow(4, k)"
+WF = {      # well-formed coding graph (statement of C01): from the start vertex every reachable vertex has an arc and reaches a branching vertex
+    "graph": "k >= 1 and is_accessor(accessor, k)",
+    "start": "start_index < " + N + " and R[start_index] != 0",
+    "ghost-shapes": "len(R) == " + N + " and len(rank) == " + N,
+    "reachable-closed": "forall(lambda v: implies(0 <= v and v < " + N + " and R[v] != 0, deg(accessor, v) >= 1 and rank[v] >= 0 and "
+                        "forall(lambda j: implies(accessor[v][j] >= 0, R[accessor[v][j]] != 0 and (deg(accessor, v) > 1 or rank[accessor[v][j]] < rank[v])), 0, 4)), "
+                        "0, " + N + ", lambda v: here(v))",
+}
+
+
+# case split on the live-arc pattern of the current vertex (16 paths, each with a concrete pattern)
+LIVE_SPLIT = "".join("if accessor[vertex_index][%d] >= 0:\n    pass\n" % j for j in range(4))
+
+
+def encode_variant(shuffled, with_check):
+    name = "dsw.spiderweb.encode#normal" + ("-table" if shuffled else "") + ("-vt" if with_check else "")
+    req = dict(WF)
+    if shuffled:
+        req["table"] = "is_table(shuffles, k)"
+    if with_check:
+        req["check-length"] = "vt_length >= 1"
+    strand = "result[0]" if with_check else "result"
+    ens = {
+        "walk-length": "len(gq) == len(%s) + 1 and len(vtx) == len(%s) + 1" % (strand, strand),
+        "starts-at-message-value": "gq[0] == val(binary_message, 0, len(binary_message), 2) and vtx[0] == start_index",
+        "ends-at-zero": "gq[len(%s)] == 0" % strand,
+        "published-scheme": "forall(lambda p: enc_step(accessor, shuffles, gq, vtx, %s, p), 0, len(%s), lambda p: %s[p])" % (strand, strand, strand),
+    }
+    if with_check:
+        ens["check-length"] = "len(result[1]) == vt_length and is_dna(result[1])"
+        ens["check-first-symbol"] = "code(result[1][0]) == ssum(codes(result[0]), 0, len(result[0])) % 4"
+        ens["check-ascent-digits"] = "dnav(result[1], 1, vt_length) == ascents(result[0]) % ipow(4, vt_length - 1)"
+    return dict(
+        name=name, function="dsw.spiderweb.encode", variant_of="dsw.spiderweb.encode", n_loops=2,
+        ghost_params={"k": "nat", "R": "nd_bits", "rank": "list_int"},
+        params={"binary_message": "nd_bits", "accessor": "mat(ipow(4, k), 4)", "start_index": "nat", "is_faster": "false",
+                "vt_length": "nat" if with_check else "const0", "shuffles": "mat(ipow(4, k), 4)" if shuffled else "none",
+                "need_path": "false", "verbose": "false"},
+        requires=req,
+        returns="tuple(str,str)" if with_check else "str",
+        ghost_returns={"gq": "list_int", "vtx": "list_int"},
+        ensures=ens,
+        raises={},
+        ghost={
+            "before_loop1": "gq = [dval(quotient)]\nvtx = [vertex_index]",
+            "loop1_begin": "mark(vertex_index)\n" + LIVE_SPLIT +
+                           "pv_positive(A(quotient), D(quotient), P(quotient, 0), P(quotient, len(quotient)), 10)",
+            "loop1_end": "gq.append(dval(quotient))\nvtx.append(vertex_index)\n"
+                         "pv_bound(A(quotient), D(quotient), P(quotient, 0), P(quotient, len(quotient)), 10)\n"
+                         "assert enc_step(accessor, shuffles, gq, vtx, dna_sequence, len(dna_sequence) - 1), 'new-step-follows-the-scheme'",
+        },
+        loops={1: dict(binds="quotient != '0'", invariant={
+            "lengths": "len(gq) == len(dna_sequence) + 1 and len(vtx) == len(dna_sequence) + 1",
+            "heads": "gq[0] == val(binary_message, 0, len(binary_message), 2) and vtx[0] == start_index",
+            "current": "gq[len(dna_sequence)] == dval(quotient) and canon(quotient) and vtx[len(dna_sequence)] == vertex_index",
+            "on-reachable-vertex": "0 <= vertex_index and vertex_index < " + N + " and R[vertex_index] != 0",
+            "published-scheme-so-far": "forall(lambda p: enc_step(accessor, shuffles, gq, vtx, dna_sequence, p), 0, len(dna_sequence), lambda p: dna_sequence[p])",
+        }, variant="(dval(quotient), rank[vertex_index])")},
+        lemmas=["pv_store_frame"],
+    )
+
+
+CONTRACTS = CONTRACTS + [
+    dict(name="dsw.spiderweb.encode", abstract=True,
+         dispatch={"params": ["is_faster", "shuffles", "vt_length"], "table": {
+             "false|NoneV|zero": "dsw.spiderweb.encode#normal", "false|NoneV|int": "dsw.spiderweb.encode#normal-vt",
+             "false|Mat|zero": "dsw.spiderweb.encode#normal-table", "false|Mat|int": "dsw.spiderweb.encode#normal-table-vt"}}),
+    encode_variant(False, False), encode_variant(True, False), encode_variant(False, True), encode_variant(True, True),
 ]
